@@ -108,9 +108,11 @@ def run(ctx: Ctx):
         d = chr(cp)
         payloads += ["Smith" + d + "ROLE=CHAIR", "x" + d + "BEGIN:VEVENT", d + "a=b" + d + "c", "x" + d + "\r\nEND:VEVENT"[:1] + "y", "v" + d]
     from icalendar.prop import vText, vUri, vCalAddress, vInline
+    class _PS(str):
+        """a str subclass as a parameter value"""
     for pay in payloads:
         for mk in (lambda s: s, vUri, vCalAddress, vInline, lambda s: vText(s)):
-            for where in ("value", "param"):
+            for where in ("value", "param", "param-vtext", "param-subclass"):
                 cal = Calendar()
                 e = Event()
                 cal.add_component(e)
@@ -119,7 +121,9 @@ def run(ctx: Ctx):
                     if where == "value":
                         e.add("x-a", mk(pay), parameters={"P": "1"})
                     else:
-                        e.add("x-a", mk("v"), parameters={"P": pay})
+                        # the parameter value as a plain str, as the library's own str subclass vText, as a user subclass
+                        pv = {"param": pay, "param-vtext": vText(pay), "param-subclass": _PS(pay)}[where]
+                        e.add("x-a", mk("v"), parameters={"P": pv})
                     b = cal.to_ical()
                 except (AssertionError, ValueError, TypeError):
                     continue      # refused
@@ -133,8 +137,13 @@ def run(ctx: Ctx):
                 if ok:
                     st = cl.structure(evs[0])
                     ok = st in ([["X-A", ["P"]]], []) and (st or evs[0].errors)
+                if ok and where != "value" and st and "\\" not in pay and "%" not in pay and '"' not in pay:
+                    # accepted and structurally exact: then the parameter VALUE is the intended one, too
+                    gotp = evs[0]["X-A"].params.get("P")
+                    if gotp != pay:
+                        ctx.fail("P:C05:value-roundtrip", {"payload": pay, "where": where, "impl_equal": False, "typed_param": True}, repr(gotp)[:120], None)
                 if not ok:
-                    hit = where == "param" and "\\" in pay
+                    hit = where.startswith("param") and "\\" in pay
                     ctx.fail("P:C05:component-no-injection",
                              {"payload": pay, "where": where, "impl_equal": False, "param_backslash": hit},
                              {"names": names, "props": [cl.structure(x) for x in evs]}, None)
